@@ -700,6 +700,16 @@ func runCase(cs *Case, ci int, pty *ptyPair, em *emu, home string) (alive bool) 
 						srcs = append(srcs, boundSrc{a.S, src, nil})
 					}
 					logj(map[string]any{"ev": "api", "c": cs.ID, "s": si, "what": "History.Add", "arg": a.S, "sources": dumpSources(), "hname": hname()})
+				case "resize":
+					// the window was resized while the application was doing something else (no call in progress: nobody
+					// is told, the next call finds a terminal of another size); the screen is cleared with it
+					em.drain()
+					flushToks(si)
+					pty.setSize(a.W, a.N)
+					em.reset(a.W, a.N)
+					em.logTok = cs.Screen
+					em.keepRaw = cs.RawOut
+					logj(map[string]any{"ev": "resized", "c": cs.ID, "s": si, "w": a.W, "h": a.N})
 				case "unbind":
 					// the application takes a sequence out of a keymap (Config.Binds is a public map)
 					delete(rl.Config.Binds[a.S], string(unhex(a.H)))
